@@ -3,6 +3,7 @@
 package checks
 
 import (
+	"math"
 	"bytes"
 	"fmt"
 	"math/rand"
@@ -180,6 +181,11 @@ func C03(e *Env) {
 	alpha = append(alpha,
 		sym{"OPENDIR many", func(P string) wire.Req { return wire.P(wire.OpOpenDir, "/many4500") }},
 		sym{"CREATE no-parent", func(P string) wire.Req { return wire.P(wire.OpCreate, P+"/nodir/x.bin") }},
+		// the offset field is unsigned: values with the top bit set (negative as a signed position)
+		sym{"READ 5@2^63", func(P string) wire.Req { return wire.Read(5, 1<<63) }},
+		sym{"READ 5@2^64-1", func(P string) wire.Req { return wire.Read(5, math.MaxUint64) }},
+		sym{"READ 5@2^64-3", func(P string) wire.Req { return wire.Read(5, math.MaxUint64-2) }},
+		sym{"READCRIT 7@2^63+10", func(P string) wire.Req { return wire.Crit(7, 1<<63+10) }},
 	)
 	// scripted histories: interactions between the read, write and directory states on the same
 	// objects that are longer than the exhaustive bound and too specific for the random part
@@ -215,6 +221,11 @@ func C03(e *Env) {
 		{"CREATE new", "WRITE 5", "CREATE no-parent", "WRITE 5", "STAT missing", "OPEN private new", "READ 10@size-2"},
 		{"CREATE existing", "WRITE 70000", "CREATE no-parent", "WRITE 70000", "WRITE 0", "CREATE existing", "WRITE 5"},
 		{"CREATE new", "OPENDIR ***DVD***/dir", "CREATE no-parent", "WRITE 5", "CREATE dir", "WRITE 5"},
+		{"OPEN file", "READ 5@2^63", "READ 5@0", "READ 5@2^64-1", "READ 5@2^64-3", "STAT file", "READCRIT 7@2^63+10"},
+		{"OPEN ***DVD***/dir", "READ 5@2^64-3", "READ 5@0", "READ 5@2^63", "STAT file"},
+		{"READ 5@2^63", "OPEN private old", "READ 5@2^64-1", "READ 5@0", "READCRIT 7@2^63+10"},
+		{"OPENDIR private", "RDE", "READDIR", "READDIR", "OPENDIR private", "READDIR", "RDE", "RDE2", "READDIR"},
+		{"OPENDIR dir", "RDE2", "RDE2", "READDIR", "RDE", "READDIR"},
 	} {
 		var syms []int
 		ok := true
